@@ -284,6 +284,17 @@ pub fn gen_pair(ch: &mut Choices, id: u64) -> Option<Pair> {
     if ch.chance(1, 3) {
         settings.insert("reserved_rule".into(), json!(true));
     }
+    // storage type of the builders' lexer types (and so of the generated modules): the batch's
+    // grammars and tables are far below the limits of u8
+    match ch.weighted(&[4, 2, 1]) {
+        1 => {
+            settings.insert("storaget".into(), json!("u16"));
+        }
+        2 => {
+            settings.insert("storaget".into(), json!("u8"));
+        }
+        _ => {}
+    }
     if ch.chance(1, 2) {
         settings.insert("epps".into(), json!(ch.range(0, 3)));
         settings.insert("epp_first".into(), json!(ch.pick(8)));
@@ -386,6 +397,15 @@ pub fn gen_lex_pair(ch: &mut Choices, id: u64) -> Pair {
         settings.insert("rt_flags".into(), Value::Object(eff));
         settings.insert("builder_flags".into(), Value::Object(bf));
         settings.insert("section_and_builder".into(), json!(true));
+    }
+    match ch.weighted(&[4, 2, 1]) {
+        1 => {
+            settings.insert("storaget".into(), json!("u16"));
+        }
+        2 => {
+            settings.insert("storaget".into(), json!("u8"));
+        }
+        _ => {}
     }
     let mut inputs = crate::props::c09::gen_inputs(ch, &al, 6);
     // the same inputs with the case of every letter swapped, and with a newline in the middle:
@@ -652,12 +672,12 @@ pub fn custom_run(cfg: &RunCfg) -> i32 {
             "disagreements_checked": comparisons,
             "evaluations": comparisons,
             "distinct_nontrivial": nontrivial.len(),
-            "rule": "Pairs (grammar, lexer) whose token names agree: AG from strata rand/expr/lr1/repo (cycle-free, loop-free tables, random precedence and %avoid_insert), kinds Grmtools and Original(UserAction) (user actions from a fixed template recording production, $span, every $i as Ok/Err lexeme or child string, $lexer and $$; %parse-param absent / a u64 by value / a shared RefCell log every action appends to / a reference behind %parse-generics; with the log, some Grmtools rules have the unit action type so that their actions are visible only in the log; every third action body spans two lines), Original(GenericParseTree), Original(NoAction); settings sampled: yacckind through builder or %grmtools header, recoverer CPCT+/None through builder and/or header, serialisation format, Rust edition, visibility, lexer flags through builder or header, for 1/3 of the pairs a reserved-word rule in the lexer that the grammar does not know and that wins over a token's rule on some inputs; 7 inputs per pair (sentences, near misses, upper-cased words, multi-line skip text, a lexing error). One cargo build of engine/ctbatch runs the real CTLexerBuilder/CTParserBuilder per pair in its build script; its binary lexes and parses every input with the generated modules and with LRNonStreamingLexerDef/RTParserBuilder built from the same source strings (user actions evaluated natively) and compares lexemes, value/tree, errors with repair sets, token_epp, R_*/N_* constants; each module's first parse is also made by 8 barrier-released threads (C15), and the binary is run in three processes (one first-use race per module and process). programs = pairs compiled and run; disagreements_checked = comparisons. Besides the pairs, 60 (thorough: 80 per batch) lexer-only items: a specification from the lexer generators of C09/C11 (start states with push/pop/replace targets, <..> prefixes, every kind of escape, flags in a %grmtools section, through the builder's flag methods (no section), or both with the builder overriding the section - one third each -, varied rendering) built by CTLexerBuilder with a user-supplied rule_ids_map that leaves 1/6 of the rule names without an id; the generated module's definition (rules: id, name, expression, start states, target; start states) and its lexemes on 6 inputs sampled from the rules must equal those of LRNonStreamingLexerDef::from_str + set_rule_ids on the same text, and one side refusing what the other accepts is a mismatch. Non-trivial pair: non-default setting or an input with a lexing error, or a lexer-only item; distinct by hash(sources).",
+            "rule": "Pairs (grammar, lexer) whose token names agree: AG from strata rand/expr/lr1/repo (cycle-free, loop-free tables, random precedence and %avoid_insert), kinds Grmtools and Original(UserAction) (user actions from a fixed template recording production, $span, every $i as Ok/Err lexeme or child string, $lexer and $$; %parse-param absent / a u64 by value / a shared RefCell log every action appends to / a reference behind %parse-generics; with the log, some Grmtools rules have the unit action type so that their actions are visible only in the log; every third action body spans two lines), Original(GenericParseTree), Original(NoAction); settings sampled: storage type u32 / u16 / u8 of the builders' lexer types (the run-time side uses the same width), yacckind through builder or %grmtools header, recoverer CPCT+/None through builder and/or header, serialisation format, Rust edition, visibility, lexer flags through builder or header, for 1/3 of the pairs a reserved-word rule in the lexer that the grammar does not know and that wins over a token's rule on some inputs; 7 inputs per pair (sentences, near misses, upper-cased words, multi-line skip text, a lexing error). One cargo build of engine/ctbatch runs the real CTLexerBuilder/CTParserBuilder per pair in its build script; its binary lexes and parses every input with the generated modules and with LRNonStreamingLexerDef/RTParserBuilder built from the same source strings (user actions evaluated natively) and compares lexemes, value/tree, errors with repair sets, token_epp, R_*/N_* constants; each module's first parse is also made by 8 barrier-released threads (C15), and the binary is run in three processes (one first-use race per module and process). programs = pairs compiled and run; disagreements_checked = comparisons. Besides the pairs, 60 (thorough: 80 per batch) lexer-only items: a specification from the lexer generators of C09/C11 (start states with push/pop/replace targets, <..> prefixes, every kind of escape, flags in a %grmtools section, through the builder's flag methods (no section), or both with the builder overriding the section - one third each -, varied rendering) built by CTLexerBuilder with a user-supplied rule_ids_map that leaves 1/6 of the rule names without an id; the generated module's definition (rules: id, name, expression, start states, target; start states) and its lexemes on 6 inputs sampled from the rules must equal those of LRNonStreamingLexerDef::from_str + set_rule_ids on the same text, and one side refusing what the other accepts is a mismatch. Non-trivial pair: non-default setting or an input with a lexing error, or a lexer-only item; distinct by hash(sources).",
             "samples": samples,
             "classes": classes,
             "replayed": replay_pairs.len(),
         },
-        "assumptions": ["when an error has several equally ranked repair sequences only the results up to the first error are compared (the order among them is documented as non-deterministic)", "recovery runs under the cfg(grmtools_verif) hooks on both sides (budget override, expansion cap 1500); capped inputs are not compared", "storage type fixed to u32 in the batch (u8/u16 are covered by C20/C14 at run time)"],
+        "assumptions": ["when an error has several equally ranked repair sequences only the results up to the first error are compared (the order among them is documented as non-deterministic)", "recovery runs under the cfg(grmtools_verif) hooks on both sides (budget override, expansion cap 1500); capped inputs are not compared", "the batch's grammars, tables and lexers are far below the limits of u8, so every pair can be built with every width (the limits themselves are C20's business)"],
         "wall_s": wall,
         "violations": all_mismatches.len(),
     });
